@@ -58,7 +58,11 @@ def sel_case(draw, tier):
         cell = st.one_of(st.lists(st.sampled_from(p), max_size=3), st.sampled_from(["", "xay", "b"]), st.lists(st.sampled_from(p), max_size=2).map(tuple))
     tbl = draw(gen.table(hdr, [cell] * nf, max_rows=7 if tier == "quick" else 14, ragged=not contains and draw(st.booleans())))
     c = {"selector": sel, "table": tbl, "field": draw(st.one_of(st.sampled_from(hdr), st.integers(0, nf - 1))),
-         "form": draw(st.sampled_from(["lists", "lists", "lists"] + catgen.FORMS)),
+         # container form of the input; "records": the data rows are petl Record objects (as records() or an upstream
+         # selectusingcontext / convert(where=) delivers them), built with the default missing=None
+         "form": draw(st.sampled_from(["lists", "lists", "lists", "records", "records"] + catgen.FORMS)),
+         # the field given bare, or as a one-element list / tuple (still ONE field: the predicate sees the cell itself)
+         "field_form": draw(st.sampled_from(["bare", "bare", "list1", "tuple1"])),
          "complement": draw(st.booleans()), "value": draw(st.one_of(st.sampled_from(p), POOLV)),
          "value2": draw(st.one_of(st.sampled_from(p), POOLV))}
     if pair is not None and draw(st.booleans()):
@@ -94,7 +98,18 @@ def check_sel(case, ctx):
 
     def cellv(r):
         return R.cell(r, fi, missing)
-    T = catgen.shape(codec.snapshot(tbl), case.get("form", "lists"))
+    # (a Record answers an index beyond its end with ITS OWN missing value, None here; a short Record row therefore "has"
+    #  None there and select's missing= never comes into play - so Record rows are used when that cannot matter)
+    if case.get("form") == "records" and (missing is None or all(len(r) >= len(hdr) for r in rows)):
+        # the Records were made under OTHER field names (as after a rename / prefixheader downstream of records-bearing
+        # views): the current header decides what a name means
+        other = [["zz_%s" % f for f in hdr]] + codec.snapshot(tbl)[1:]
+        T = [list(hdr)] + list(etl.records(other))
+        ctx.label("record-rows")
+    elif case.get("form") == "records":
+        T = codec.snapshot(tbl)
+    else:
+        T = catgen.shape(codec.snapshot(tbl), case.get("form", "lists"))
     args, kw = (), {"complement": comp}
     if sel in ("selectlt", "selectle", "selectgt", "selectge"):
         sign = {"selectlt": lambda c: c < 0, "selectle": lambda c: c <= 0, "selectgt": lambda c: c > 0, "selectge": lambda c: c >= 0}[sel]
@@ -151,6 +166,10 @@ def check_sel(case, ctx):
         pred = lambda r: cellv(r) is not None  # noqa
         args = ("{%s} is not None" % fname,)
         kw["missing"] = missing
+    ff = case.get("field_form", "bare")
+    if ff != "bare" and sel not in ("select-row", "select-expr") and args:
+        args = (([args[0]] if ff == "list1" else (args[0],)),) + tuple(args[1:])
+        ctx.label("field-form:" + ff)
     name = "select" if sel.startswith("select-") else sel
     try:
         exp = [r for r in rows if bool(pred(r)) != comp]
